@@ -25,6 +25,8 @@ def obligations(tier):
                       funcs=(IN + "InstrumentTrack.from_chart_lines", IN + "NoteEvent._compute_hopo_state"), bounds="symbolic resolution and gaps through the real parser"))
     obs.append(Ob("C04.framing", "CH", "harness.h_chart", "framing", 300, funcs=("chartparse.chart.Chart._partition_lines_by_data_section",),
                   bounds="3 sections x <=2 symbolic body lines of any length (blank lines included): this section's parser receives exactly its own body lines"))
+    obs.append(Ob("C04.hopo_history", "CH", "harness.h_instrument", "hopo_history", 900, funcs=(IN + "NoteEvent._compute_hopo_state", TK + "note_duration_to_ticks (real)"),
+                  bounds="each of 96 note pairs in its own fresh interpreter, natively: the pair judged over a sequence of 9 resolutions (192, 480, 100, 1, 2, 3, 960, again 192, 480) x 13 distances x forced: every decision follows its own resolution"))
     obs.append(Ob("C04.hopo_twice", "CH", "harness.h_instrument", "hopo_twice", 900, funcs=(IN + "NoteEvent._compute_hopo_state",),
                   bounds="the same note pair at the same distance judged at two symbolic resolutions in one process (96 note pairs): each decision follows its own resolution"))
     return obs
